@@ -77,3 +77,28 @@ pub fn parse_file_head(bytes: &[u8]) -> Result<ParsedFile, String> {
         dataset_offset: 132 + end,
     })
 }
+
+/// Build a PS3.10 file: 128-byte preamble, "DICM", a minimal meta group, then the data set bytes.
+pub fn build_file(ts_uid: &str, sop_class: &str, sop_instance: &str, dataset: &[u8], preamble: bool) -> Vec<u8> {
+    use crate::ds::{encode_ds, Elem, LenMode, Val};
+    let ui = |e: u16, s: &str| Elem { g: 2, e, vr: "UI".into(), v: Val::Strs(vec![s.to_string()]) };
+    let rest = vec![
+        Elem { g: 2, e: 1, vr: "OB".into(), v: Val::U8(vec![0, 1]) },
+        ui(2, sop_class),
+        ui(3, sop_instance),
+        ui(0x10, ts_uid),
+        ui(0x12, "1.2.826.0.1.3680043.10.1462.1"),
+        Elem { g: 2, e: 0x13, vr: "SH".into(), v: Val::Strs(vec!["VERIF_REF".into()]) },
+    ];
+    let rest_bytes = encode_ds(&rest, Ts::ExplicitLE, LenMode::AllUndefined);
+    let gl = vec![Elem { g: 2, e: 0, vr: "UL".into(), v: Val::U32(vec![rest_bytes.len() as u32]) }];
+    let mut out = vec![];
+    if preamble {
+        out.extend_from_slice(&[0u8; 128]);
+    }
+    out.extend_from_slice(b"DICM");
+    out.extend(encode_ds(&gl, Ts::ExplicitLE, LenMode::AllUndefined));
+    out.extend(rest_bytes);
+    out.extend_from_slice(dataset);
+    out
+}
